@@ -23,7 +23,7 @@ def proof_part(ctx, extra_obligations=None):
     ctx.coverage.update({
         "obligations": n,
         "discharged": n - bad,
-        "checker_cmd": "cd lean && lake build Abnf driver && lake env lean ../run/%s/Audit.lean  (#print axioms per theorem)" % ctx.pid,
+        "checker_cmd": "cd lean && lake build %s driver && lake env lean ../run/%s/Audit.lean  (#print axioms per theorem)" % (" ".join(reg["modules"]), ctx.pid),
         "trusted_base": list(TRUSTED_BASE),
         "theorems": details.get("theorems"),
         "lean": {k: v for k, v in details.items() if k not in ("theorems",)},
@@ -41,7 +41,7 @@ def conclude(ctx, corr_disagreements: int, found_violation: bool):
     if not ctx.proof_ok:
         d = ctx.proof_details
         what = "proof obligations of %s no longer check: %s" % (
-            ctx.pid, ", ".join(d.get("not_discharged") or []) or ("lake build failed" if not d.get("lake_build_ok") else "forbidden construct: %s" % d.get("forbidden_hits")))
+            ctx.pid, ", ".join(d.get("not_discharged") or []) or ("lake build failed at %s" % "; ".join(d.get("failed_at") or ["?"]) if not d.get("lake_build_ok") else "forbidden construct: %s" % d.get("forbidden_hits")))
         ctx.report(what, {"broken": "proof", "details": d}, key=None, no_input=True)
     elif corr_disagreements:
         ctx.report("model/implementation correspondence of %s broken (%d disagreements) but no input violating the property was found" % (ctx.pid, corr_disagreements),
